@@ -160,7 +160,9 @@ type clientStreamWrapper struct {
 
 func getPeer(baseUrl *url.URL, tls *tls.ConnectionState) *peer.Peer {
 	hostPort := baseUrl.Host
-	if !strings.Contains(hostPort, ":") {
+	if baseUrl.Port() == "" {
+		// no port in the URL (an IPv6 literal such as [::1] has colons but no port)
+		hostPort = strings.TrimSuffix(hostPort, ":")
 		if baseUrl.Scheme == "https" {
 			hostPort = hostPort + ":443"
 		} else if baseUrl.Scheme == "http" {
